@@ -12,6 +12,7 @@ import Mathlib.Tactic.Positivity
 import Mathlib.Algebra.Order.Field.Rat
 import Mathlib.Algebra.Order.Floor.Ring
 import Mathlib.Data.Rat.Floor
+import Mathlib.Analysis.InnerProductSpace.Orthonormal
 
 /-!
 # Helper lemmas for C09
@@ -332,6 +333,20 @@ theorem mem_modeExps {order j k : ℕ} (h : j + k < order / 2) : (j, k) ∈ mode
   refine ⟨j + k, List.mem_range.2 h, ?_⟩
   rw [List.mem_map]
   exact ⟨j, List.mem_range.2 (by omega), by simp⟩
+
+/-! ## the same operator for an arbitrary orthonormal family in an inner-product space -/
+section Abstract
+variable {𝕜 E ι : Type*} [RCLike 𝕜] [NormedAddCommGroup E] [InnerProductSpace 𝕜 E] [Fintype ι]
+
+/-- `E ↦ E − T T⁺ E` when the columns `v i` of `T` are orthonormal (`T⁺ = Tᴴ`). -/
+noncomputable def projectOut (v : ι → E) (x : E) : E := x - ∑ i, inner 𝕜 (v i) x • v i
+
+theorem inner_projectOut {v : ι → E} (hv : Orthonormal 𝕜 v) (x : E) (j : ι) :
+    inner 𝕜 (v j) (projectOut (𝕜 := 𝕜) v x) = 0 := by
+  unfold projectOut
+  rw [inner_sub_right, hv.inner_right_fintype, sub_self]
+
+end Abstract
 
 /-! ## multi-scale bookkeeping -/
 
